@@ -3,3 +3,5 @@
 set -e
 cd /verif/tools/vx-extract
 CARGO_NET_OFFLINE=true cargo build --release --offline 2>&1 | tail -3
+cd /verif/tools/axiom-audit
+CARGO_NET_OFFLINE=true cargo build --release --offline 2>&1 | tail -3
